@@ -338,7 +338,7 @@ for case in cases:
         xorder = [e[1] for e in ctl.trace if e[0] == "XENTER"]
     except BaseException as e:
         xorder = ["ERR " + type(e).__name__]
-    out.append(dict(cp=t["cp"], order=order, xorder=xorder))
+    out.append(dict(cp=t["cp"], order=order, xorder=xorder, deps=t["deps"], debug=t["debug"], maxc=getattr(d, "max_concurrency", None)))
 json.dump(out, open(sys.argv[2], "w"))
 """
 
